@@ -41,8 +41,14 @@ func runDisableRace(c *rig.Ctx, dc DisableCase) bool {
 		c.Fail(rig.Failure{Kind: kind, Class: class, What: what, Case: dc})
 		return false
 	}
-	if !lib.WaitNoHealthGoroutines(20 * time.Second) {
-		return fail("diff", "c03.leftover-goroutines", "health-check workers of a stopped cluster are still alive")
+	// every wait of this stream is against the wall clock: when one runs out (a loaded machine) the round proves nothing and
+	// the stream ends INCONCLUSIVE; the only failure is an observed forbidden event, a probe that started after the disable
+	inconclusive := func(where string) bool {
+		c.Count("disable-stream-inconclusive: " + where)
+		return true
+	}
+	if !lib.WaitNoHealthGoroutines(30 * time.Second) {
+		return inconclusive("workers of a stopped cluster still alive")
 	}
 	w := lib.NewWorld()
 	defer w.Stop()
@@ -51,7 +57,7 @@ func runDisableRace(c *rig.Ctx, dc DisableCase) bool {
 	up := []lib.UpEnt{{N: ep, H: true}, {N: other, H: true}}
 	spec := func(dis bool) []lib.Server { return []lib.Server{{Ep: ep, Dis: dis}, {Ep: other}} }
 	settle := func(workers int) string {
-		deadline := time.Now().Add(10 * time.Second)
+		deadline := time.Now().Add(30 * time.Second)
 		for {
 			_, live := lib.HealthGoroutines()
 			e, ok := w.Load(ep)
@@ -70,19 +76,21 @@ func runDisableRace(c *rig.Ctx, dc DisableCase) bool {
 		return fail("diff", "c03.sync-error", err.Error())
 	}
 	if bad := settle(2); bad != "" {
-		return fail("diff", "c03.unsettled", "disable stream, start: "+bad)
+		_ = bad
+		return inconclusive("start")
 	}
 	for round := 0; round < dc.DisableRace.Rounds; round++ {
 		e, ok := w.Load(ep)
 		if !ok {
-			return fail("diff", "c03.unsettled", "the endpoint disappeared")
+			return inconclusive("endpoint not found")
 		}
 		w.BlockNextProbe()
 		e.TriggerHealthCheck()
 		select {
 		case <-w.Entered: // a probe is in progress
-		case <-time.After(10 * time.Second):
-			return fail("diff", "c03.unsettled", "disable stream: a triggered probe of an enabled endpoint did not start")
+		case <-time.After(30 * time.Second):
+			w.Release <- struct{}{} // in case it starts later
+			return inconclusive("triggered probe did not start in time")
 		}
 		e.TriggerHealthCheck() // a tick is queued behind it
 		if err := w.Sync(spec(true), [][]string{{}}); err != nil {
@@ -90,27 +98,31 @@ func runDisableRace(c *rig.Ctx, dc DisableCase) bool {
 		}
 		w.DrainViol()           // the probe in progress started before the disable
 		w.Release <- struct{}{} // it ends: the worker finds the queued tick and its cancellation
-		if bad := settle(1); bad != "" {
-			return fail("judge", "c03.probing-set", fmt.Sprintf("disable stream, round %d: after the Sync that disabled the endpoint: %s", round, bad))
-		}
+		settled := settle(1) // the cancelled worker has left (stack inspection), nothing is pending
 		time.Sleep(200 * time.Microsecond)
 		if v := w.DrainViol(); len(v) > 0 {
 			return fail("judge", "c03.probe-disabled", fmt.Sprintf("round %d: a probe was in progress and a tick queued when Sync disabled the endpoint; after Sync had returned and the probe in progress had ended, a new probe STARTED: %s", round, v[0]))
 		}
+		if settled != "" {
+			return inconclusive("cancelled worker did not leave in time")
+		}
 		w.DrainFired()
+		n0 := w.ProbesOf(e) // read BEFORE the Sync: the first probe of the new health check may be over when Sync returns
 		if err := w.Sync(spec(false), [][]string{{}}); err != nil { // enabled again: probing resumes
 			return fail("diff", "c03.sync-error", err.Error())
 		}
-		n0 := w.ProbesOf(e)
-		deadline := time.Now().Add(10 * time.Second)
+		deadline := time.Now().Add(30 * time.Second)
 		for w.ProbesOf(e) <= n0 && time.Now().Before(deadline) {
 			time.Sleep(50 * time.Microsecond)
 		}
 		if w.ProbesOf(e) <= n0 {
-			return fail("judge", "c03.probing-set", fmt.Sprintf("disable stream, round %d: the endpoint was enabled again but is not probed", round))
+			// "enabled again => probed again" is judged by the other streams (worker goroutines = enabled servers); here a
+			// missing probe within the deadline only ends the stream
+			return inconclusive("no probe seen in time after re-enabling")
 		}
 		if bad := settle(2); bad != "" {
-			return fail("diff", "c03.unsettled", fmt.Sprintf("disable stream, round %d, after re-enabling: %s", round, bad))
+			_ = bad
+			return inconclusive("after re-enabling")
 		}
 		w.DrainViol()
 	}
